@@ -96,6 +96,7 @@ def unhexList (s : String) : Option (List Bytes) :=
 /-! ## C06 -/
 
 def oracleBuild (n : Bytes) (args : List Bytes) (impl : String) : String :=
+  if impl == "CLONE-FROM-DIFFERS" then "fail:c06-clone-from-gives-another-command" else
   match impl.splitOn ";" with
   | [nv, vs, hb] =>
     if nv != "ok" then
